@@ -705,10 +705,20 @@ func (db *DB) rollbackJournal(ctx context.Context) error {
 
 	// Resize database to size before journal transaction, if a valid header exists.
 	if r.IsValid() {
-		if err := db.truncateDatabase(dbFile, r.commit); err != nil {
+		// While a journal is hot the database file is never shorter than it
+		// was before the transaction (SQLite cuts a shrunken file only after
+		// the journal is finalised), so rollback only ever has to cut the file
+		// back. Never extend it to a size a damaged header claims.
+		commit := r.commit
+		if fi, err := dbFile.Stat(); err != nil {
+			return err
+		} else if n := uint32(fi.Size() / int64(db.pageSize)); commit > n {
+			commit = n
+		}
+		if err := db.truncateDatabase(dbFile, commit); err != nil {
 			return err
 		}
-		db.pageN.Store(r.commit)
+		db.pageN.Store(commit)
 	}
 
 	if err := dbFile.Sync(); err != nil {
